@@ -364,6 +364,16 @@ class Negative(Term):
     def is_aggregate(self) -> bool | None:  # type:ignore[override]
         return self.term.is_aggregate
 
+    def nodes_(self) -> Iterator[NodeT]:
+        yield self  # type:ignore[misc]
+        yield from self.term.nodes_()
+
+    @builder
+    def replace_table(  # type:ignore[return]
+        self, current_table: "Table" | None, new_table: "Table" | None
+    ) -> "Self":
+        self.term = self.term.replace_table(current_table, new_table)
+
     def get_sql(self, ctx: SqlContext) -> str:
         term_sql = self.term.get_sql(ctx.copy(with_alias=False))
         # -(a+1) must not become -a+1, and a second minus must not form the "--" comment opener
@@ -395,6 +405,18 @@ class ValueWrapper(Term):
         super().__init__(alias)
         self.value = value
         self.allow_parametrize = allow_parametrize
+
+    def nodes_(self) -> Iterator[NodeT]:
+        yield self  # type:ignore[misc]
+        if isinstance(self.value, Node):
+            yield from self.value.nodes_()
+
+    @builder
+    def replace_table(  # type:ignore[return]
+        self, current_table: "Table" | None, new_table: "Table" | None
+    ) -> "Self":
+        if isinstance(self.value, Term):
+            self.value = self.value.replace_table(current_table, new_table)
 
     def get_value_sql(self, ctx: SqlContext) -> str:
         return self.get_formatted_value(self.value, ctx)
@@ -551,6 +573,16 @@ class Values(Term):
         super().__init__(None)
         self.field = Field(field) if not isinstance(field, Field) else field
 
+    def nodes_(self) -> Iterator[NodeT]:
+        yield self  # type:ignore[misc]
+        yield from self.field.nodes_()
+
+    @builder
+    def replace_table(  # type:ignore[return]
+        self, current_table: "Table" | None, new_table: "Table" | None
+    ) -> "Self":
+        self.field = self.field.replace_table(current_table, new_table)
+
     def get_sql(self, ctx: SqlContext) -> str:
         sql = "VALUES({value})".format(value=self.field.get_sql(ctx.copy(with_alias=False)))
         if ctx.with_alias:
@@ -641,6 +673,10 @@ class Field(Criterion, JSON):
         yield self  # type:ignore[misc]
         if self.table is not None:
             yield from self.table.nodes_()
+
+    def __hash__(self) -> int:
+        # columns of different tables that share a name are different references
+        return hash((self.name, self.table, self.alias))
 
     @builder
     def replace_table(  # type:ignore[return]
@@ -816,7 +852,7 @@ class NestedCriterion(Criterion):
         """
         self.left = self.left.replace_table(current_table, new_table)
         self.right = self.right.replace_table(current_table, new_table)
-        self.nested = self.right.replace_table(current_table, new_table)
+        self.nested = self.nested.replace_table(current_table, new_table)
 
     def get_sql(self, ctx: SqlContext) -> str:
         operand_ctx = ctx.copy(with_alias=False)
@@ -940,6 +976,7 @@ class ContainsCriterion(Criterion):
             A copy of the criterion with the tables replaced.
         """
         self.term = self.term.replace_table(current_table, new_table)
+        self.container = self.container.replace_table(current_table, new_table)
 
     def get_sql(self, ctx: SqlContext) -> str:
         container_ctx = ctx.copy(subquery=True, with_alias=False)
@@ -972,6 +1009,14 @@ class RangeCriterion(Criterion):
     def is_aggregate(self) -> bool | None:  # type:ignore[override]
         return self.term.is_aggregate
 
+    @builder
+    def replace_table(  # type:ignore[return]
+        self, current_table: "Table" | None, new_table: "Table" | None
+    ) -> "Self":
+        self.term = self.term.replace_table(current_table, new_table)
+        self.start = self.start.replace_table(current_table, new_table)
+        self.end = self.end.replace_table(current_table, new_table)
+
 
 class BetweenCriterion(RangeCriterion):
     @builder
@@ -989,6 +1034,8 @@ class BetweenCriterion(RangeCriterion):
             A copy of the criterion with the tables replaced.
         """
         self.term = self.term.replace_table(current_table, new_table)
+        self.start = self.start.replace_table(current_table, new_table)
+        self.end = self.end.replace_table(current_table, new_table)
 
     def get_sql(self, ctx: SqlContext) -> str:
         # FIXME escape
@@ -1359,6 +1406,12 @@ class All(Criterion):
         yield self  # type:ignore[misc]
         yield from self.term.nodes_()
 
+    @builder
+    def replace_table(  # type:ignore[return]
+        self, current_table: "Table" | None, new_table: "Table" | None
+    ) -> "Self":
+        self.term = self.term.replace_table(current_table, new_table)
+
     def get_sql(self, ctx: SqlContext) -> str:
         sql = "{term} ALL".format(term=self.term.get_sql(ctx.copy(with_alias=False)))
         return format_alias_sql(sql, self.alias, ctx)
@@ -1479,6 +1532,20 @@ class AggregateFunction(Function):
         self._include_filter = True
         self._filters = [*self._filters, *filters]
 
+    def nodes_(self) -> Iterator[NodeT]:
+        yield from super().nodes_()
+        for criterion in self._filters:
+            yield from criterion.nodes_()
+
+    @builder
+    def replace_table(  # type:ignore[return]
+        self, current_table: "Table" | None, new_table: "Table" | None
+    ) -> "Self":
+        self.args = [param.replace_table(current_table, new_table) for param in self.args]
+        self._filters = [
+            criterion.replace_table(current_table, new_table) for criterion in self._filters
+        ]
+
     def get_filter_sql(self, ctx: SqlContext) -> str:  # type:ignore[return]
         if self._include_filter:
             criterions = Criterion.all(self._filters).get_sql(ctx)  # type:ignore[attr-defined]
@@ -1516,6 +1583,29 @@ class AnalyticFunction(AggregateFunction):
     def orderby(self, *terms: Any, **kwargs: Any) -> "Self":  # type:ignore[return]
         self._include_over = True
         self._orderbys = [*self._orderbys, *[(term, kwargs.get("order")) for term in terms]]
+
+    def nodes_(self) -> Iterator[NodeT]:
+        yield from super().nodes_()
+        for term in [*self._partition, *[field for field, _ in self._orderbys]]:
+            if isinstance(term, Node):
+                yield from term.nodes_()
+
+    @builder
+    def replace_table(  # type:ignore[return]
+        self, current_table: "Table" | None, new_table: "Table" | None
+    ) -> "Self":
+        self.args = [param.replace_table(current_table, new_table) for param in self.args]
+        self._filters = [
+            criterion.replace_table(current_table, new_table) for criterion in self._filters
+        ]
+        self._partition = [
+            term.replace_table(current_table, new_table) if isinstance(term, Term) else term
+            for term in self._partition
+        ]
+        self._orderbys = [
+            (field.replace_table(current_table, new_table) if isinstance(field, Term) else field, orient)
+            for field, orient in self._orderbys
+        ]
 
     def _orderby_field(self, field: Field, orient: Order | None, ctx: SqlContext) -> str:
         if orient is None:
@@ -1784,6 +1874,16 @@ class AtTimezone(Term):
         self.field = Field(field) if not isinstance(field, Field) else field
         self.zone = zone
         self.interval = interval
+
+    def nodes_(self) -> Iterator[NodeT]:
+        yield self  # type:ignore[misc]
+        yield from self.field.nodes_()
+
+    @builder
+    def replace_table(  # type:ignore[return]
+        self, current_table: "Table" | None, new_table: "Table" | None
+    ) -> "Self":
+        self.field = self.field.replace_table(current_table, new_table)
 
     def get_sql(self, ctx: SqlContext) -> str:
         sql = "{name} AT TIME ZONE {interval}'{zone}'".format(
